@@ -245,7 +245,11 @@ func init() {
 		if mode, ok := p["pushgw"]; ok {
 			gw = newFakeGateway(mode)
 			defer gw.srv.Close()
-			os.Setenv("PROMETHEUS_PUSH_GATEWAY", gw.srv.URL)
+			u := gw.srv.URL
+			if p["pushurl"] == "bare" { // host:port without a scheme: the push client adds http:// itself
+				u = strings.TrimPrefix(u, "http://")
+			}
+			os.Setenv("PROMETHEUS_PUSH_GATEWAY", u)
 			defer os.Unsetenv("PROMETHEUS_PUSH_GATEWAY")
 		}
 		staticLabels := map[string]string{"zone": "primary", "zone2": "secondary", "team": "x"}
